@@ -33,7 +33,7 @@ from sdc11073.xml_types import dataconverters as dc
 from sdc11073.xml_types import isoduration
 from sdc11073.xml_types import xml_structure as xs
 
-READY = False
+READY = True
 MANIFEST = dict(
     technique='Lean 4 theorems over a model of the declarative XML binding (one write/read pair per descriptor kind, abstract scalar codec, classes = member lists of a generated table): per-kind read-after-write, frame lemmas, class-level round trip by induction over the member list and the nesting depth for every table whose classes satisfy a decidable side condition (kernel-evaluated for the generated table); type-directed differential testing of as_etree_node / from_node against the compiled model',
     text='Theorems (Properties/C05.lean): read_write_kind (all 8 descriptor kinds incl. nested instances, xsi:type substitution, lists, raw content), write_frame / read_local (members with distinct XML names do not interfere), roundtrip (for every class with okCls and every well-typed instance of any nesting depth: writeCls succeeds and readCls gives the instance back), rewrite_same (writing the read value gives the same XML), roundtrip_with_xsi_type, absent_defaults / empty_element_defaults (an absent attribute / child reads as None, [] or the declared default), generated_classes_ok (kernel evaluation: all 245 classes of the generated table satisfy okCls except msg_types.Mds/Vmd/Channel). The table (Generated/Schema.lean: 245 classes, ~1290 members, xsi:type registries) is regenerated from the running code; on every run the real as_etree_node / mk_node output (names interned, prefixes resolved) is compared with the model writeCls and from_node with readCls for generated instances of every class (presence patterns, list lengths, enum members, xsi:type substitutions, XML-legal strings), plus reads with absent defaulted members and malformed lexical forms.',
@@ -917,7 +917,7 @@ def run(ctx):
     n_schema = len(lines)
     ops = []      # (line, expected answer, case)
     for ci, k, obj, g in gen_cases(ctx, tab):
-        case = {'class': tab.keys[ci], 'sub': [ci, k]}
+        case = {'class': tab.keys[ci], 'sub': [ci, k], 'seed': ctx.seed}
         ok = oracle(ctx, tab, obj, case)
         ctx.case({'class': tab.keys[ci], 'value': canon(obj)}, nontrivial=g.stats['present'] >= 2 and g.stats['absent_optional'] >= 1,
                  sample={'class': tab.keys[ci], 'xml': etree.tostring(serialize(obj)).decode()[:400]} if (ok and ci % 60 == 0 and k == 0) else None)
@@ -942,6 +942,7 @@ def run(ctx):
             ops.append((f'w {ci} {enc.nid(tag)} ' + ' '.join(vt), 'err', case))
             continue
         ops.append((f'w {ci} {enc.nid(tag)} ' + ' '.join(vt), 'ok ' + ' '.join(enc.xml(node)), case))
+        ops.append((f't {ci} ' + ' '.join(vt), None, {**case, 'oracle_ok': ok}))      # is the value in the theorems' domain (WT)?
         re_node = etree.fromstring(etree.tostring(node))
         try:
             back = parse_node(type(obj), re_node)
@@ -955,6 +956,8 @@ def run(ctx):
     n_pre = len(lines)
     lines += [o[0] for o in ops]
     ctx.notes['codec_pairs'] = len(enc.cx)
+    ctx.notes['explanation'] = ('corr:t:wt / corr:t:nwt = generated values inside / outside the domain WT of the round-trip theorem '
+                                '(outside: classes msg_types.Mds/Vmd/Channel and values containing them, empty tokens ...)')
     if ctx.driver_ok:
         out = ctx.driver('drv_c05', lines)
         bad = [i for i, ln in enumerate(out[:n_pre]) if ln != 'ok']
@@ -962,6 +965,12 @@ def run(ctx):
             ctx.disagree('driver rejected a schema / codec line', {'line': lines[bad[0]][:300], 'answer': out[bad[0]]})
         for (line, expect, case), got in zip(ops, out[n_pre:]):
             ctx.count('corr:' + line[0] + ':' + got.split(' ')[0])
+            if line[0] == 't':
+                if got == 'wt' and not case['oracle_ok']:
+                    ctx.disagree('a value inside WT does not round-trip on the implementation', case, 'wt', 'oracle failed')
+                elif got not in ('wt', 'nwt'):
+                    ctx.disagree('driver rejected a WT query', case, got, None)
+                continue
             if got != expect:
                 what = 'writeCls(v) == as_etree_node(v)' if line[0] == 'w' else 'readCls(x) == from_node(x)'
                 ctx.disagree(what, case, _diff_tokens(got, expect), _diff_tokens(expect, got))
@@ -1070,7 +1079,7 @@ def search(ctx):
                 obj = g.instance(cls)
             except GenError:
                 continue
-            oracle(ctx, tab, obj, {'class': tab.keys[ci], 'sub': [ci, k]})
+            oracle(ctx, tab, obj, {'class': tab.keys[ci], 'sub': [ci, k], 'seed': ctx.seed})
         if len(ctx.failures) > 20:
             return
 
@@ -1078,10 +1087,16 @@ def search(ctx):
 def replay(ctx, obj):
     tab = table()
     case = obj['case']
-    ci, k = case['sub']
-    g = Gen(tab, ctx.subrng('gen', ci, k), max_depth=ctx.subrng('d', ci, k).choice([1, 2, 3]))
-    inst = g.instance(tab.clist[ci])
-    oracle(ctx, tab, inst, case)
+    ctx.seed = case.get('seed', ctx.seed)
+    if 'absent_member' in case or 'malformed' in case:
+        ops = []
+        extra_cases(ctx, tab, Enc(tab), ops)
+    else:
+        ci, k = case['sub']
+        ci = tab.keys.index(case['class']) if case.get('class') in tab.keys else ci
+        g = Gen(tab, ctx.subrng('gen', ci, k), max_depth=ctx.subrng('d', ci, k).choice([1, 2, 3]))
+        inst = g.instance(tab.clist[ci])
+        oracle(ctx, tab, inst, case)
     for f in ctx.failures:
-        print(f['signature'], '-', f['detail'])
-    return bool(ctx.failures)
+        print(f['signature'], '-', f['detail'][:300])
+    return any(f['signature'] == obj.get('signature') for f in ctx.failures) or bool(ctx.failures and 'sub' in case and 'absent_member' not in case)
